@@ -19,6 +19,8 @@ _real_int = builtins.int
 
 # characters that behave differently under case mapping, normalisation, width, class tests
 CHARS = [0x41, 0x61, 0x30, 0x20, 0x00, 0x7F, 0xDF, 0xE9, 0x130, 0x131, 0x17F, 0x212A, 0x212B, 0xFB01, 0xA0, 0xAD, 0x301, 0x2028, 0xFF21, 0x1F600, 0x27, 0x5C, 0x2A, 0x28, 0x0A, 0x80, 0xFF, 0x7FF, 0x800, 0xFFFF, 0x10000, 0x10FFFF]
+# short strings that typically matter to (un)escaping code: other escape syntaxes next to specials
+TOKENS = ["%2a)", "%41(x", "%5c\\", "\\2a%", "&#40;(", "=28)", "+ (+", "a%00*", "''", "\\\\"]
 INTS = [0, 1, -1, 2, 127, 128, 255, 256, 65535, 65536, 2**31 - 1, 2**31, 2**32, -128, -129, 2**63, -(2**63)]
 
 
@@ -52,6 +54,7 @@ def conc_items(items, what):
     cands = [tuple([c] * n) for c in CHARS]
     if n > 1:
         cands += [tuple([0x41] * (n - 1) + [c]) for c in CHARS[6:22]] + [tuple([c] + [0x61] * (n - 1)) for c in CHARS[6:22]]
+        cands += [tuple((ord(t[i]) if i < len(t) else 0x61) for i in range(n)) for t in TOKENS]
     vals = _pick(terms, cands, what)
     out = list(items)
     for (i, _), v in zip(sym, vals):
@@ -87,6 +90,8 @@ class HuntModule:
 
     def __getattr__(self, k):
         v = getattr(object.__getattribute__(self, "_mod"), k)
+        if isinstance(v, type(builtins)):
+            return HuntModule(v)
         if callable(v) and not _real_isinstance(v, type):
             name = f"{object.__getattribute__(self, '_mod').__name__}.{k}"
 
@@ -97,4 +102,4 @@ class HuntModule:
         return v
 
 
-HUNT_MODULES = ("unicodedata", "stringprep", "binascii", "math", "zlib", "hashlib", "hmac", "string", "textwrap", "codecs", "operator", "bisect", "heapq", "fractions", "decimal")
+HUNT_MODULES = ("urllib", "urllib.parse", "html", "quopri", "shlex", "unicodedata", "stringprep", "binascii", "math", "zlib", "hashlib", "hmac", "string", "textwrap", "codecs", "operator", "bisect", "heapq", "fractions", "decimal")
